@@ -7,6 +7,13 @@ PKGS = {
 }
 
 PROPS = {
+    "C19": {
+        "harnesses": [
+            {"pkg": "interpreter", "name": "VH_C19_Step", "quick": {"params": {"D": 2, "K": 1, "C": 1, "U": 4}}, "thorough": {"params": {"D": 3, "K": 2, "C": 2, "U": 6}}},
+            {"pkg": "interpreter", "name": "VH_C19_Execute", "quick": {"params": {"L": 1}}, "thorough": {"params": {"L": 2}}},
+        ],
+        "assumptions": [],
+    },
     "C17": {
         "harnesses": [
             {"pkg": "bscript", "name": "VH_C17_RoundTrip", "quick": {"params": {"L": 2}}, "thorough": {"params": {"L": 6}}},
@@ -47,6 +54,8 @@ PROPS = {
             {"pkg": "bscript", "name": "VH_C13_Parts", "quick": {"params": {"P": 2, "BIG": 0}}, "thorough": {"params": {"P": 3, "BIG": 1}}},
             {"pkg": "bscript", "name": "VH_C13_DecodeParts", "quick": {"params": {"L": 4}}, "thorough": {"params": {"L": 7}}},
             {"pkg": "bscript", "name": "VH_C13_HexJSON", "quick": {"params": {"L": 3}}, "thorough": {"params": {"L": 6}}},
+            {"pkg": "interpreter", "name": "VH_C13_ParseUnparse", "quick": {"params": {"L": 2}}, "thorough": {"params": {"L": 3}}},
+            {"pkg": "interpreter", "name": "VH_C13_ParseReturn", "quick": {"params": {"T": 4}}, "thorough": {"params": {"T": 8}}},
         ],
         "assumptions": [],
     },
@@ -106,6 +115,7 @@ PROPS = {
             {"pkg": "bt", "name": "VH_C01_EncodeDecode", "quick": {"params": {"IO": 2, "S": 1}}, "thorough": {"params": {"IO": 2, "S": 2}}},
             {"pkg": "bt", "name": "VH_C01_Boundary", "quick": {"params": {"BIG": 0}}, "thorough": {"params": {"BIG": 1}}},
             {"pkg": "bt", "name": "VH_C01_CountBoundary"},
+            {"pkg": "bt", "name": "VH_C01_NonMinimal"},
         ],
         "assumptions": [],
         "bounds": {"quick": "", "thorough": ""},
